@@ -140,7 +140,7 @@ class Spec:
         mt = m.trx[t]
         if not mt.running or (mt.undefined & {"fh", "toa", "ci"}):
             return []
-        for fn in (6, 9, 2715647):
+        for fn in (7, 9, 2715647):     # 7: not a multiple of the periods in the alphabet (a wrong period shows)
             txf, rxf = mt.freq(fn, 1), mt.freq(fn, 0)
             if txf is None or rxf is None:
                 return []
